@@ -53,19 +53,21 @@ type DexState struct {
 	Lck  DexBatchRec       `json:"lck"`
 }
 type DexLine struct {
-	E      string      `json:"e"` // "dexstart" | "dex"
-	Chain  string      `json:"chain"`
-	Op     string      `json:"op"` // order | deposit | withdraw | deliver
-	A      string      `json:"a"`
-	Amt    uint64      `json:"amt"`
-	Req    uint64      `json:"req"`
-	Pct    uint64      `json:"pct"`
-	Remote DexBatchRec `json:"remote"`
-	Perm   []int       `json:"perm"`
-	NewId  string      `json:"newId"`
-	Err    bool        `json:"err"`
-	Msg    string      `json:"msg"`
-	Post   DexState    `json:"post"`
+	E      string            `json:"e"` // "dexstart" | "dex"
+	Chain  string            `json:"chain"`
+	Op     string            `json:"op"` // order | deposit | withdraw | deliver
+	A      string            `json:"a"`
+	Amt    uint64            `json:"amt"`
+	Req    uint64            `json:"req"`
+	Pct    uint64            `json:"pct"`
+	Remote DexBatchRec       `json:"remote"`
+	RPts   map[string]uint64 `json:"rpts"` // fallback: the remote chain's points ledger handed over with the batch
+	RTot   uint64            `json:"rtot"`
+	Perm   []int             `json:"perm"`
+	NewId  string            `json:"newId"`
+	Err    bool              `json:"err"`
+	Msg    string            `json:"msg"`
+	Post   DexState          `json:"post"`
 	// big-number mode: the accounting identities evaluated with math/big (amounts do not fit TLC integers)
 	Big       bool `json:"big"`
 	HoldingOK bool `json:"holdingOK"`
@@ -249,6 +251,9 @@ func (c *dexChain) fillBig(l *DexLine) {
 	l.PointsOK = pts.Cmp(new(big.Int).SetUint64(st.Tot)) == 0
 	l.SupplyOK = bigSum(st).Cmp(c.supply0) == 0
 	l.KOK = true
+	if l.RPts == nil {
+		l.RPts = map[string]uint64{"a0": 0, "a1": 0, "a2": 0, "dead": 0}
+	}
 }
 
 func dexMode(seed int64, runs, rounds int, big bool, out *json.Encoder) error {
@@ -354,7 +359,15 @@ func dexMode(seed int64, runs, rounds int, big bool, out *json.Encoder) error {
 					c.empties[shortHash(remote.Copy().Hash())] = true // Hash() fills in the receipt hash of an empty batch: not on the original
 				}
 				l := DexLine{E: "dex", Chain: c.name, Op: "deliver", Big: big, Perm: []int{}}
-				l.Remote = o.batchRec(remote, true)
+				l.Remote = o.batchRec(remote, true) // identity of the batch as the receipt hash will name it (the fallback flag is not part of it)
+				// liveness fallback: our locked batch has been waiting; the remote batch comes flagged and with the remote points ledger
+				if own, _ := c.n.c.FSM.GetDexBatch(c.counter, true); !big && own != nil && !own.IsEmpty() && rng.Intn(5) == 0 {
+					ost, _ := o.state()
+					l.Op, l.RPts, l.RTot = "fallback", ost.Pts, ost.Tot
+					remote.LivenessFallback = true
+					op, _ := o.n.c.FSM.GetPool(o.counter + fsm.LiquidityPoolAddend)
+					remote.PoolPoints, remote.TotalPoolPoints = op.Points, op.TotalPoolPoints
+				}
 				// execution order of the remote orders: by hash key over the previous block hash
 				prev, be := c.n.c.FSM.LoadBlock(c.n.c.FSM.Height() - 1)
 				if be != nil || prev == nil {
@@ -380,9 +393,7 @@ func dexMode(seed int64, runs, rounds int, big bool, out *json.Encoder) error {
 					return se
 				}
 				l.Post = st
-				if st.Lck.Id != before.Lck.Id {
-					l.NewId = st.Lck.Id
-				}
+				l.NewId = st.Lck.Id // used by the specification only if this delivery locks a batch
 				c.fillBig(&l)
 				l.KOK = true
 				if big && he == nil && st.Lck.Id != before.Lck.Id && len(st.Lck.Receipts) == len(remote.Orders) {
